@@ -45,6 +45,11 @@ func (m *FieldModifier) Apply(eng flows.Engine, env envs.Environment, sa flows.S
 	// truncate text value if necessary
 	if newValue != nil {
 		newValue.Text = types.NewXText(utils.Truncate(newValue.Text.Native(), eng.Options().MaxFieldChars))
+
+		// a value truncated to nothing is no value: it would not be stored, so it must not be announced either
+		if newValue.Text.Native() == "" {
+			newValue = nil
+		}
 	}
 
 	if !newValue.Equals(oldValue) {
